@@ -40,7 +40,7 @@ def replay(ctx, binp, progs, exps, tag, nconc=3, timeout=1800, env=None, alts=No
                 continue
             c = {"id": p["id"], "prog": p["prog"], "exp": e, "unordered": bool(p.get("unordered"))}
             if alts:
-                c["alt"] = [{"key": k, "exp": ax[p["id"]]} for k, ax in alts.items() if ax[p["id"]] != e and ax[p["id"]]["cls"] != "fuel"]
+                c["alt"] = [{"key": k, "exp": ax[p["id"]]} for k, ax in alts.items() if ax[p["id"]] != e]
             f.write(json.dumps(c, separators=(",", ":")) + "\n")
     res = os.path.join(ctx.work, "result_%s.json" % tag)
     s, info = run_cases(ctx, binp, cases, res, nconc, env=env, timeout=timeout)
